@@ -380,7 +380,13 @@ impl Blockchain {
                         disconnected_block_id
                     );
 
-                    for i in block_id + 1..=disconnected_block_id {
+                    // the block ring only holds the latest `ring_buffer_size` ids
+                    let first_disconnected_id = std::cmp::max(
+                        block_id.saturating_add(1),
+                        disconnected_block_id
+                            .saturating_sub(self.blockring.get_ring_buffer_size()),
+                    );
+                    for i in first_disconnected_id..=disconnected_block_id {
                         if let Some(disconnected_block_hash) =
                             self.blockring.get_longest_chain_block_hash_at_block_id(i)
                         {
